@@ -29,9 +29,13 @@ class PROP(Prop):
                f"walk::{SR}.receive_directory_structure#walk",
                f"snd::{RSYNC}:RSync._send_link", f"snd::{RSYNC}:RSync._send_link_structure", f"snd::{RSYNC}:RSync._send_directory_structure", f"snd::{RSYNC}:RSync._send_directory",
                f"snd::{RSYNC}:RSync._send_item", f"snd::{RSYNC}:RSync._process_link",
-               f"snd::{RSYNC}:RSync._done", f"snd::{RSYNC}:RSync._end_of_channel"]   # several targets: finishing one leaves what the others still need (frame of _done)
-    heavy = {f"walk::{SR}.receive_directory_structure#walk": 16, SR: 12, f"snd::{RSYNC}:RSync._send_link_structure": 2, f"snd::{RSYNC}:RSync._send_item": 4, f"{SR}.receive_directory_structure#entry": 4}
-    extra_worlds = {"snd": cr.declare_sender, "walk": cr.declare_walk_loops}
+               f"snd::{RSYNC}:RSync._done", f"snd::{RSYNC}:RSync._end_of_channel",   # several targets: finishing one leaves what the others still need (frame of _done)
+               f"snd::{RSYNC}:RSync._list_done",
+               # send(): trailing slash normalised for everything that follows, structure broadcast first, then every request taken from the queue is answered by its
+               # handler, for its channel, with its arguments, in arrival order (history variable), until every target has reported "done"
+               f"send::{RSYNC}:RSync.send"]
+    heavy = {f"walk::{SR}.receive_directory_structure#walk": 16, SR: 12, f"snd::{RSYNC}:RSync._send_link_structure": 2, f"snd::{RSYNC}:RSync._send_item": 4, f"{SR}.receive_directory_structure#entry": 4, f"send::{RSYNC}:RSync.send": 8}
+    extra_worlds = {"snd": cr.declare_sender, "walk": cr.declare_walk_loops, "send": cr.declare_send_loop}
     assumptions = [
         "abstract file system: total maps path -> kind / permission bits / mtime / content / link target; os.lstat, unlink, makedirs, chmod, utime, symlink, readlink, listdir, open/read/write, shutil.rmtree(ignore_errors) are "
         "assumed contracts on these maps (the receiver owns the target tree: chmod/utime of an existing entry succeed; rmtree removes everything below its argument); mtimes are opaque integer stamps",
@@ -48,7 +52,9 @@ class PROP(Prop):
     ]
     not_decided = ["the whole-tree statement (every source entry present and equal at every target; delete removes exactly the rest) as one theorem: it is the composition of the per-message contracts along the "
                    "pre-order listing - an induction over the tree that is not mechanised; the native oracle compares whole trees (bounded)",
-                   "RSync.send()'s dispatch loop and add_target: static obligations on the dispatch table only",
+                   "add_target (static obligation only); that send() never ends with KeyError from the progress bookkeeping (every requested path has a recorded size: an invariant of _send_item's two "
+                   "dictionaries across the loop) is not mechanised: _list_done's contract allows KeyError exactly for a requested path without a recorded size; the native oracle runs with a progress callback in every second round",
+                   "the queue of requests is a prophecy variable (the sequence of (channel, request) pairs the targets will put); that each target's requests arrive in the order it sent them is C02/C10",
                    "real file-system effects: umask, ownership, timestamp resolution, unreadable files, special files"]
 
     def setup(self, w):
@@ -67,15 +73,6 @@ class PROP(Prop):
     def static_checks(self, w):
         m = extract.load(RSYNC)
         out = []
-        send = ast.unparse(m.func("RSync.send"))
-        table = {"links": "self._process_link(channel)", "done": "self._done(channel)", "list_done": "self._list_done(channel)", "send": "self._send_item(channel, req[1][0], req[1][1])"}
-        for tag, call in table.items():
-            i = send.find(f"req[0] == '{tag}'")
-            j = send.find(call)
-            nxt = min([send.find(f"req[0] == '{t}'", i + 1) for t in table if send.find(f"req[0] == '{t}'", i + 1) > i] + [len(send)])
-            out.append((f"static/RSync.send/request-{tag}-dispatches-to-its-handler", 0 <= i < j < nxt, f"positions {i} {j} {nxt}"))
-        out.append(("static/RSync.send/structure-sent-before-requests-are-served", 0 <= send.find("self._send_directory_structure(self._sourcedir)") < send.find("while self._channels"), "order"))
-        out.append(("static/RSync.send/end-of-channel-on-None", "if req is None:\n            self._end_of_channel(channel)" in send.replace("    " * 3, "            ") or "if req is None" in send, "None request"))
         at = ast.unparse(m.func("RSync.add_target"))
         out.append(("static/RSync.add_target/destdir-and-options-sent-first", "channel.send((str(destdir), options))" in at and "channel.setcallback(itemcallback, endmarker=None)" in at, "add_target"))
         r = extract.load(RSYNCR)
